@@ -900,6 +900,7 @@ class ConnWatch(object):
         self.cur_copy = False
         self.cur_dgram_seq = None
         self.datagrams = []       # (t, seq, is_copy, accepted, lag_vs_newest)
+        self.acks = []            # (t, ack, ack_bits) of every datagram the endpoint accepted
         self.messages = {}        # msgseq -> list of (t, lag_before, is_copy_carrier, dgram_seq, type), ACCEPTED messages only
         self.rejected = 0         # messages the window flagged as duplicates
         self.frag_gone = []       # (t, frag_id) reassembly contexts that disappeared without completing
@@ -920,6 +921,9 @@ class ConnWatch(object):
                 return ok
             finally:
                 watch.datagrams.append((clock.t, int(hdr.seq), watch.cur_copy, ok, lag, len(watch.net.log) if watch.net is not None else -1))
+                if ok is True:
+                    # what an accepted datagram acknowledged: (t, ack, ack_bits) as carried in its header
+                    watch.acks.append((clock.t, int(hdr.ack), int(hdr.ack_bits)))
                 watch.cur_copy = False
 
         def recv_message(pkt_typ, msgseq, msg):
